@@ -153,12 +153,15 @@ class CSIIndex:
         contig_indexes = []
         positions = []
         for contig_index, bins in enumerate(self.bins):
-            # bins may be in any order within a contig, so sort by loffset
-            for bin in sorted(bins, key=lambda b: b.loffset):
-                if bin.bin == pseudo_bin:
-                    continue  # skip pseudo bins
-                file_offset = get_file_offset(bin.loffset)
-                position = get_first_locus_in_bin(self, bin.bin)
+            # bins may be in any order within a contig, so sort by loffset; bins
+            # sharing a loffset must be ordered by the position they start at
+            keyed_bins = [
+                (bin.loffset, get_first_locus_in_bin(self, bin.bin))
+                for bin in bins
+                if bin.bin != pseudo_bin  # skip pseudo bins
+            ]
+            for loffset, position in sorted(keyed_bins):
+                file_offset = get_file_offset(loffset)
                 file_offsets.append(file_offset)
                 contig_indexes.append(contig_index)
                 positions.append(position)
